@@ -68,6 +68,15 @@ CHECKS.update({
             P3 + "synthesised callables; int vs str incompatible."),
 })
 
+CHECKS.update({
+    "C13": ("exploration", "p3", "TLA+ contracts per fluent operation (spec/Fluent.tla over spec/Arrays.tla arithmetic) evaluated by TLC on the denotations logged by a reference interpreter over Action.graph() for every enumerated program",
+            "Exhaustive over the bounded program domain (2516 programs / 3688 steps quick; depths 1-3, every dim, batch sizes 0..n+1, keep_dim both ways, sources with and without coordinates): dims, coords and values of every step satisfy the operation's contract.",
+            P3 + "numpy float64 payloads of small integers read back as exact rationals; std compared squared; undocumented behaviour follows readings R1-R8 stated at the top of Fluent.tla; no claim about dtypes, float rounding, xarray/FieldList payloads (DESIGN section 8)."),
+    "C15": ("exploration", "p3", "TLA+ array algebra (spec/Arrays.tla: exact integers/rationals) evaluated by TLC against the values of the real backends on numpy and xarray inputs; BatchableInModel decided in the model for every partition into consecutive batches",
+            "Exhaustive over the bounded domain (4715 cases x 2 backends quick): value and shape equality for every operation/axis/index, every function marked batchable is batchable in the model, documented batchables are marked.",
+            P3 + "values are exact small integers/rationals held in float64; no claim about dtypes, rounding, overflow, NaN (DESIGN section 8)."),
+})
+
 NOT_YET = {
 }
 
@@ -96,7 +105,7 @@ def main():
         "engines": [
             {"name": "cascade", "path": "harness/cascade_engine.py", "serves_properties": ["C01", "C02", "C03", "C04"],
              "kind_free_text": "TLC model checking of spec/Cascade.tla per instance + recorded executions of the real controller validated by TLC against spec/CascadeTrace.tla"},
-            {"name": "p3", "path": "harness/p3.py", "serves_properties": ["C10", "C11", "C12", "C14", "C16", "C17", "C19"],
+            {"name": "p3", "path": "harness/p3.py", "serves_properties": ["C10", "C11", "C12", "C13", "C14", "C15", "C16", "C17", "C19"],
              "kind_free_text": "enumerate / execute / validate: TLC generates the cases from the spec's domain, the harness runs the real function, TLC evaluates the spec's post-condition"},
             {"name": "acked", "path": "harness/props/c06.py", "serves_properties": ["C06"],
              "kind_free_text": "TLC on spec/Acked.tla + behaviour replay into the real comms layer and endpoint loops"},
